@@ -253,3 +253,13 @@ Section Par.
       eapply find_none in Hf; [|exact Hcl]. apply pmem_In in Hca. simpl in Hf. congruence.
   Qed.
 End Par.
+
+(* the property's "bad memberships are reported as not ready" is refuted at full
+   strength by the faithful model: Ready is restored by a later unrelated success *)
+Lemma bad_membership_not_ready_refuted : exists evs,
+  let s := snd (run (mkEnv [] []) evs) in
+  bad_membership [mkObj 2 3 [MHyper 2]; mkObj 1 1 [MNode 5]]%positive = true /\ s_ready s = true.
+Proof.
+  exists [EUpd (mkObj 2 3 [MHyper 2]); EUpd (mkObj 1 1 [MNode 5])]%positive.
+  vm_compute. split; reflexivity.
+Qed.
